@@ -85,6 +85,9 @@ def premise_ok(pid, line, parsed, k):
         return any(t[0] in PRED_OPS or any(ILL_SCRIPT.match(x) for x in t[1:]) for t in upto)
     if pid == "C10":
         return k < len(body) and body[k][0] in ITER_OPS or (k < len(body) and body[k][0] == "end")
+    if pid == "C06":
+        # about vectors that have never allocated: nothing has been allocated in this history so far
+        return not any(re.search(r"(^|,)[ar]\d", p["alloc"]) for p in parsed if p["k"] < k)
     return True
 
 def judge(pid, line, res, expected_abort=False):
